@@ -107,13 +107,17 @@ pub struct Projection {
     pub expected: bool,
     pub outputs: bool,
     pub checkedness: bool,
+    /// look at virtual-signal entries only
+    pub virtual_only: bool,
 }
 
 impl Projection {
     pub const INPUTS_EXPECTED: Projection =
-        Projection { inputs: true, expected: true, outputs: false, checkedness: true };
+        Projection { inputs: true, expected: true, outputs: false, checkedness: true, virtual_only: false };
     pub const ALL: Projection =
-        Projection { inputs: true, expected: true, outputs: true, checkedness: true };
+        Projection { inputs: true, expected: true, outputs: true, checkedness: true, virtual_only: false };
+    pub const VIRTUAL: Projection =
+        Projection { inputs: false, expected: true, outputs: true, checkedness: true, virtual_only: true };
 }
 
 /// Compare one reference row with one real row under a projection.
@@ -147,6 +151,9 @@ pub fn row_diff(ri: &RiRow, real: &RealRow, proj: Projection) -> Option<String> 
     }
     if ri.checked && (proj.expected || proj.outputs) && real.outputs.len() == ri.outputs.len() {
         for (k, ro) in ri.outputs.iter().enumerate() {
+            if proj.virtual_only && !ro.is_virtual {
+                continue;
+            }
             let real_o = if ro.is_virtual {
                 real.outputs.iter().find(|o| o.name == ro.name)
             } else {
@@ -157,6 +164,9 @@ pub fn row_diff(ri: &RiRow, real: &RealRow, proj: Projection) -> Option<String> 
             };
             if real_o.name != ro.name {
                 return Some(format!("output entry {k} is for {}, expected {}", real_o.name, ro.name));
+            }
+            if ro.is_virtual && real_o.bits != 64 {
+                return Some(format!("virtual signal {} is {} bits wide, should be 64", ro.name, real_o.bits));
             }
             if proj.expected && real_o.expected != ro.expected {
                 return Some(format!(
